@@ -2,6 +2,7 @@ import Driver.Lapper
 import Driver.Rec
 import Driver.Lapper2
 import Driver.Coverage
+import Driver.Text
 /-!
 `bvdriver FILE` (or stdin): one case per line, answers one verdict line per case.
 -/
@@ -23,6 +24,9 @@ def handle (line : String) : String :=
       | "C20" => handleC20 inp obs
       | "C05" => handleC05 inp obs
       | "C06" => handleC06 inp obs
+      | "C03" => handleC03 inp obs
+      | "C12" => handleC12 inp obs
+      | "C04" => handleC04 inp obs
       | "C13" => handleC13 inp obs
       | "C14" => handleC14 inp obs
       | "C07" => handleC07 inp obs
